@@ -33,13 +33,13 @@ func parseGval(tok string) gval {
 	case strings.HasPrefix(tok, "n"):
 		v, err := strconv.ParseUint(tok[1:], 10, 64)
 		if err != nil {
-			panic("bad value token")
+			panic(badCase("bad value token"))
 		}
 		return gval{N: v}
 	case strings.HasPrefix(tok, "t"):
 		v, err := strconv.ParseInt(tok[1:], 10, 64)
 		if err != nil {
-			panic("bad value token")
+			panic(badCase("bad value token"))
 		}
 		return gval{T: time.Unix(v, 0)}
 	case tok == "pnil":
@@ -47,7 +47,7 @@ func parseGval(tok string) gval {
 	case strings.HasPrefix(tok, "p"):
 		f := strings.Split(tok[1:], "/")
 		if len(f) != 2 {
-			panic("bad value token")
+			panic(badCase("bad value token"))
 		}
 		return gval{Net: &net.IPNet{IP: net.IP(unhx(f[0])), Mask: net.IPMask(unhx(f[1]))}}
 	}
